@@ -61,6 +61,176 @@ theorem bitsOfNat_pad : ∀ n, n < 8 → ∀ acc, acc < 2 ^ n →
     bitsOfNat 8 (acc * 2 ^ (8 - n)) = bitsOfNat n acc ++ List.replicate (8 - n) false := by
   decide +kernel
 
+/-- The unread bits of a reader state. -/
+def viewBits (rest : Bytes) (buff bpos : Nat) : List Bool := bitsOfNat (8 - bpos) buff ++ bitsOf rest
+
+theorem bitsOfNat_take : ∀ (r k n : Nat), k ≤ r → (bitsOfNat r n).take k = bitsOfNat k (n / 2 ^ (r - k)) := by
+  intro r
+  induction r with
+  | zero => intro k n hk; have : k = 0 := by omega
+            subst this; rfl
+  | succ r ih =>
+    intro k n hk
+    cases k with
+    | zero => rfl
+    | succ k =>
+      have hk' : k ≤ r := by omega
+      simp only [bitsOfNat, List.take_succ_cons, ih k n hk']
+      have e : r + 1 - (k + 1) = r - k := by omega
+      rw [e, Nat.div_div_eq_div_mul, ← Nat.pow_add]
+      have e2 : r - k + k = r := by omega
+      rw [e2]
+
+theorem bitsOfNat_drop : ∀ (r k n : Nat), k ≤ r → (bitsOfNat r n).drop k = bitsOfNat (r - k) n := by
+  intro r
+  induction r with
+  | zero => intro k n hk; have : k = 0 := by omega
+            subst this; rfl
+  | succ r ih =>
+    intro k n hk
+    cases k with
+    | zero => rfl
+    | succ k =>
+      have hk' : k ≤ r := by omega
+      simp only [bitsOfNat, List.drop_succ_cons, ih k n hk']
+      have e : r + 1 - (k + 1) = r - k := by omega
+      rw [e]
+
+theorem natOfBits_bitsOfNat_mod (k m : Nat) : natOfBits (bitsOfNat k m) = m % 2 ^ k := by
+  unfold natOfBits; rw [foldl_bitsOfNat]; simp
+
+theorem natOfBits_append (a b : List Bool) : natOfBits (a ++ b) = natOfBits a * 2 ^ b.length + natOfBits b := by
+  unfold natOfBits
+  rw [List.foldl_append]
+  generalize List.foldl (fun a b => 2 * a + if b = true then 1 else 0) 0 a = s
+  induction b generalizing s with
+  | nil => simp
+  | cons x b ih =>
+    simp only [List.foldl_cons, List.length_cons]
+    rw [ih, ih (2 * 0 + if x = true then 1 else 0)]
+    rw [Nat.pow_succ]
+    generalize List.foldl (fun a b => 2 * a + if b = true then 1 else 0) 0 b = t
+    generalize 2 ^ b.length = p
+    cases x
+    · simp; rw [Nat.mul_comm 2 s, Nat.mul_assoc, Nat.mul_comm 2 p]
+    · simp; rw [Nat.add_mul, Nat.mul_comm 2 s, Nat.mul_assoc, Nat.mul_comm 2 p]; omega
+
+
+theorem bitsOfByte_toNat (x : UInt8) : bitsOfByte x = bitsOfNat 8 x.toNat := by
+  have := bitsOfByte_ofNat x.toNat x.toNat_lt
+  rwa [UInt8.ofNat_toNat] at this
+
+theorem viewBits_length (rest : Bytes) (buff bpos : Nat) :
+    (viewBits rest buff bpos).length = 8 - bpos + 8 * rest.length := by
+  simp [viewBits, bitsOf_length]
+
+/-- `readbits` reads exactly the next `bits` unread bits (or fails when fewer remain). -/
+theorem readbits_view : ∀ (rest : Bytes) (buff bpos bits v : Nat), bpos ≤ 8 →
+    ((viewBits rest buff bpos).length < bits → readbits rest buff bpos bits v = none) ∧
+    (bits ≤ (viewBits rest buff bpos).length → ∃ buff' bpos' rest',
+      readbits rest buff bpos bits v
+        = some (v * 2 ^ bits + natOfBits ((viewBits rest buff bpos).take bits), buff', bpos', rest') ∧
+      bpos' ≤ 8 ∧ viewBits rest' buff' bpos' = (viewBits rest buff bpos).drop bits) := by
+  intro rest
+  induction rest with
+  | nil =>
+    intro buff bpos bits v hb
+    have hlen := viewBits_length [] buff bpos
+    simp only [List.length_nil, Nat.mul_zero, Nat.add_zero] at hlen
+    by_cases hle : bits ≤ 8 - bpos
+    · refine ⟨fun h => by omega, fun _ => ⟨buff, bpos + bits, [], ?_, by omega, ?_⟩⟩
+      · rw [readbits]
+        simp only [hle, if_true]
+        have : (viewBits [] buff bpos).take bits = bitsOfNat bits (buff / 2 ^ (8 - bpos - bits)) := by
+          simp only [viewBits, bitsOf, List.append_nil]
+          exact bitsOfNat_take _ _ _ hle
+        rw [this, natOfBits_bitsOfNat_mod]
+      · simp only [viewBits, bitsOf, List.append_nil]
+        rw [bitsOfNat_drop _ _ _ hle]
+        congr 1; omega
+    · refine ⟨fun _ => ?_, fun h => by omega⟩
+      rw [readbits]; simp only [hle, if_false]
+  | cons x rest' ih =>
+    intro buff bpos bits v hb
+    have hlen := viewBits_length (x :: rest') buff bpos
+    by_cases hle : bits ≤ 8 - bpos
+    · refine ⟨fun h => by omega, fun _ => ⟨buff, bpos + bits, x :: rest', ?_, by omega, ?_⟩⟩
+      · rw [readbits]
+        simp only [hle, if_true]
+        have : (viewBits (x :: rest') buff bpos).take bits = bitsOfNat bits (buff / 2 ^ (8 - bpos - bits)) := by
+          simp only [viewBits]
+          rw [List.take_append_of_le_length (by simpa using hle)]
+          exact bitsOfNat_take _ _ _ hle
+        rw [this, natOfBits_bitsOfNat_mod]
+      · simp only [viewBits]
+        rw [List.drop_append_of_le_length (by simpa using hle), bitsOfNat_drop _ _ _ hle]
+        congr 2; omega
+    · have hview : viewBits (x :: rest') buff bpos = bitsOfNat (8 - bpos) buff ++ viewBits rest' x.toNat 0 := by
+        simp only [viewBits, bitsOf, bitsOfByte_toNat, Nat.sub_zero]
+      have hlen' := viewBits_length rest' x.toNat 0
+      obtain ⟨ihn, ihs⟩ := ih x.toNat 0 (bits - (8 - bpos)) (v * 2 ^ (8 - bpos) + buff % 2 ^ (8 - bpos)) (by omega)
+      have hrb : readbits (x :: rest') buff bpos bits v
+          = readbits rest' x.toNat 0 (bits - (8 - bpos)) (v * 2 ^ (8 - bpos) + buff % 2 ^ (8 - bpos)) := by
+        rw [readbits]; simp only [hle, if_false]
+      simp only [List.length_cons] at hlen
+      refine ⟨fun h => ?_, fun h => ?_⟩
+      · rw [hrb]; apply ihn
+        omega
+      · obtain ⟨buff', bpos', rest'', hr, hb', hv'⟩ := ihs (by omega)
+        refine ⟨buff', bpos', rest'', ?_, hb', ?_⟩
+        · rw [hrb, hr, hview]
+          have htake : (bitsOfNat (8 - bpos) buff ++ viewBits rest' x.toNat 0).take bits
+              = bitsOfNat (8 - bpos) buff ++ (viewBits rest' x.toNat 0).take (bits - (8 - bpos)) := by
+            rw [List.take_append]
+            simp only [bitsOfNat_length]
+            rw [List.take_of_length_le (by simp; omega)]
+          rw [htake, natOfBits_append, natOfBits_bitsOfNat_mod]
+          have hl : ((viewBits rest' x.toNat 0).take (bits - (8 - bpos))).length = bits - (8 - bpos) := by
+            simp only [List.length_take]; omega
+          rw [hl]
+          have hp : 2 ^ bits = 2 ^ (8 - bpos) * 2 ^ (bits - (8 - bpos)) := by
+            rw [← Nat.pow_add]; congr 1; omega
+          have hnum : ∀ nb : Nat, (v * 2 ^ (8 - bpos) + buff % 2 ^ (8 - bpos)) * 2 ^ (bits - (8 - bpos)) + nb
+              = v * 2 ^ bits + (buff % 2 ^ (8 - bpos) * 2 ^ (bits - (8 - bpos)) + nb) := by
+            intro nb
+            rw [hp, Nat.add_mul, Nat.mul_assoc]
+            omega
+          rw [hnum]
+        · have hd1 : (bitsOfNat (8 - bpos) buff).drop bits = [] :=
+            List.drop_of_length_le (by rw [bitsOfNat_length]; omega)
+          rw [hv', hview, List.drop_append, hd1, List.nil_append, bitsOfNat_length]
+
+/-- The loop on the reader state is the loop on the unread bits. -/
+theorem lzwRunB_eq : ∀ (fuel : Nat) (st : LzwSt) (rest : Bytes) (buff bpos : Nat), bpos ≤ 8 →
+    lzwRunB fuel st rest buff bpos = lzwRun fuel st (viewBits rest buff bpos) := by
+  intro fuel
+  induction fuel with
+  | zero => intro st rest buff bpos _; rfl
+  | succ fuel ih =>
+    intro st rest buff bpos hb
+    obtain ⟨hn, hs⟩ := readbits_view rest buff bpos st.nbits 0 hb
+    rw [lzwRunB, lzwRun]
+    by_cases hlt : (viewBits rest buff bpos).length < st.nbits
+    · have h1 : ((viewBits rest buff bpos).take st.nbits).length < st.nbits := by
+        simp only [List.length_take]; omega
+      simp only [hn hlt, h1, if_true]
+    · obtain ⟨buff', bpos', rest', hr, hb', hv'⟩ := hs (by omega)
+      have h1 : ¬ ((viewBits rest buff bpos).take st.nbits).length < st.nbits := by
+        simp only [List.length_take]; omega
+      simp only [hr, h1, if_false, Nat.zero_mul, Nat.zero_add]
+      cases feed st (natOfBits ((viewBits rest buff bpos).take st.nbits)) with
+      | corrupt => rfl
+      | indexError => rfl
+      | ok st' x =>
+        simp only
+        rw [ih st' rest' buff' bpos' hb', hv']
+
+/-- `lzwdecode` in terms of the bit view. -/
+theorem lzwdecode_bits (data : Bytes) : lzwdecode data = lzwRun (8 * data.length + 1) lzwInit (bitsOf data) := by
+  unfold lzwdecode
+  rw [lzwRunB_eq _ _ _ _ _ (Nat.le_refl 8)]
+  simp [viewBits, bitsOfNat]
+
 /-- Packing and unpacking bits: the bits come back, followed by fewer than 8 zero bits. -/
 theorem bitsOf_packGo (bs : List Bool) : ∀ (acc n : Nat), n < 8 → acc < 2 ^ n →
     ∃ k, k < 8 ∧ bitsOf (packGo acc n bs) = bitsOfNat n acc ++ bs ++ List.replicate k false := by
@@ -469,7 +639,8 @@ theorem lzwBits_length_ge (j : Nat) (cs : List Nat) : cs.length ≤ (lzwBits j c
 
 /-- `lzwdecode` inverts the encoder: every byte string, every placement of extra Clear codes. -/
 theorem lzwdecode_lzwEnc (clr : Nat → Bool) (x : Bytes) : lzwdecode (lzwEnc clr x) = .ok x := by
-  unfold lzwdecode lzwEnc
+  rw [lzwdecode_bits]
+  unfold lzwEnc
   obtain ⟨k, hk, hbits⟩ := bitsOf_packBits (lzwBits 0 (lzwCodes clr x))
   have hlen : 8 * (packBits (lzwBits 0 (lzwCodes clr x))).length = (lzwBits 0 (lzwCodes clr x)).length + k := by
     rw [← bitsOf_length, hbits]; simp
